@@ -362,8 +362,20 @@ pub enum Sub {
         #[command(subcommand)]
         inner: Deep,
     },
+    /// a tuple variant that is itself a subcommand enum (`remote fetch --all`)
+    #[command(subcommand)]
+    Remote(Deep2),
     #[command(external_subcommand)]
     Ext(Vec<OsString>),
+}
+
+#[derive(Subcommand, Clone, Debug, PartialEq)]
+pub enum Deep2 {
+    Fetch {
+        #[arg(long)]
+        all: bool,
+    },
+    Prune,
 }
 
 #[derive(Subcommand, Clone, Debug, PartialEq)]
@@ -400,6 +412,11 @@ fn extract_sub(m: &ArgMatches) -> Option<Sub> {
         }
         Some(("add", sm)) => Some(Sub::Add { name: one(sm, "name").unwrap(), force: sm.get_flag("force") }),
         Some(("remove", sm)) => Some(Sub::Remove(RemoveArgs { recursive: sm.get_flag("recursive"), target: one(sm, "target").unwrap() })),
+        Some(("remote", sm)) => Some(Sub::Remote(match sm.subcommand() {
+            Some(("fetch", fm)) => Deep2::Fetch { all: fm.get_flag("all") },
+            Some(("prune", _)) => Deep2::Prune,
+            other => panic!("harness: unexpected remote subcommand {:?}", other.map(|o| o.0)),
+        })),
         Some(("nested", sm)) => Some(Sub::Nested {
             inner: match sm.subcommand() {
                 Some(("leaf", lm)) => Deep::Leaf { x: one(lm, "x") },
@@ -442,11 +459,21 @@ fn sub_pieces(s: &Sub) -> Vec<String> {
             }
             Deep::Unit => vec!["nested".into(), "unit".into()],
         },
+        Sub::Remote(Deep2::Fetch { all }) => {
+            let mut v = vec!["remote".to_string(), "fetch".into()];
+            if *all {
+                v.push("--all".into());
+            }
+            v
+        }
+        Sub::Remote(Deep2::Prune) => vec!["remote".into(), "prune".into()],
         Sub::Ext(v) => v.iter().map(|x| x.to_string_lossy().into_owned()).collect(),
     }
 }
 fn arb_sub(rng: &mut Rng) -> Sub {
-    match rng.below(5) {
+    match rng.below(7) {
+        5 => Sub::Remote(Deep2::Fetch { all: rng.coin() }),
+        6 => Sub::Remote(Deep2::Prune),
         0 => Sub::Add { name: word(rng), force: rng.coin() },
         1 => Sub::Remove(RemoveArgs { recursive: rng.coin(), target: word(rng) }),
         2 => Sub::Nested { inner: Deep::Leaf { x: opt(rng, |r| r.below(200) as i8) } },
@@ -530,6 +557,100 @@ impl Corpus for L {
     }
     fn arbitrary(rng: &mut Rng) -> Self {
         L { verbose: rng.below(3) as u8, cmd: if rng.coin() { Sub2::DoIt { dry_run: rng.coin() } } else { Sub2::ShowAll { mode: Mode::arb(rng) } } }
+    }
+    fn fields(&self) -> Vec<(&'static str, String)> {
+        vec![("verbose", format!("{:?}", self.verbose)), ("cmd", format!("{:?}", self.cmd))]
+    }
+    const UPDATABLE: bool = false;
+}
+
+// ------------------------------------------------------------------ N: optional subcommand whose enum has no external variant
+// (with an external_subcommand variant `has_subcommand` is true for every name, which masks its table)
+
+#[derive(Subcommand, Clone, Debug, PartialEq)]
+pub enum SubN {
+    Status {
+        #[arg(long)]
+        short: bool,
+    },
+    #[command(subcommand)]
+    Remote(Deep2),
+    #[command(flatten)]
+    Flat(Deep),
+}
+#[derive(Parser, Clone, Debug, PartialEq)]
+#[command(name = "n")]
+pub struct N {
+    #[arg(long)]
+    verbose: bool,
+    #[command(subcommand)]
+    cmd: Option<SubN>,
+}
+impl Corpus for N {
+    const NAME: &'static str = "N(Option<subcommand> without external,tuple subcommand variant,flattened enum)";
+    fn extract(m: &ArgMatches) -> Self {
+        N {
+            verbose: m.get_flag("verbose"),
+            cmd: match m.subcommand() {
+                None => None,
+                Some(("status", sm)) => Some(SubN::Status { short: sm.get_flag("short") }),
+                Some(("remote", sm)) => Some(SubN::Remote(match sm.subcommand() {
+                    Some(("fetch", fm)) => Deep2::Fetch { all: fm.get_flag("all") },
+                    Some(("prune", _)) => Deep2::Prune,
+                    other => panic!("harness: unexpected remote subcommand {:?}", other.map(|o| o.0)),
+                })),
+                Some(("leaf", lm)) => Some(SubN::Flat(Deep::Leaf { x: one(lm, "x") })),
+                Some(("unit", _)) => Some(SubN::Flat(Deep::Unit)),
+                other => panic!("harness: unexpected subcommand {:?}", other.map(|o| o.0)),
+            },
+        }
+    }
+    fn pieces(&self) -> Vec<(&'static str, Vec<String>)> {
+        vec![
+            ("verbose", if self.verbose { vec!["--verbose".into()] } else { vec![] }),
+            (
+                "cmd",
+                match &self.cmd {
+                    None => vec![],
+                    Some(SubN::Status { short }) => {
+                        let mut v = vec!["status".to_string()];
+                        if *short {
+                            v.push("--short".into());
+                        }
+                        v
+                    }
+                    Some(SubN::Remote(Deep2::Fetch { all })) => {
+                        let mut v = vec!["remote".to_string(), "fetch".into()];
+                        if *all {
+                            v.push("--all".into());
+                        }
+                        v
+                    }
+                    Some(SubN::Remote(Deep2::Prune)) => vec!["remote".into(), "prune".into()],
+                    Some(SubN::Flat(Deep::Leaf { x })) => {
+                        let mut v = vec!["leaf".to_string()];
+                        if let Some(x) = x {
+                            v.push(format!("--x={}", x));
+                        }
+                        v
+                    }
+                    Some(SubN::Flat(Deep::Unit)) => vec!["unit".into()],
+                },
+            ),
+        ]
+    }
+    fn arbitrary(rng: &mut Rng) -> Self {
+        N {
+            verbose: rng.coin(),
+            cmd: match rng.below(6) {
+                0 => None,
+                1 => Some(SubN::Status { short: rng.coin() }),
+                2 => Some(SubN::Remote(Deep2::Fetch { all: rng.coin() })),
+                3 => Some(SubN::Remote(Deep2::Prune)),
+                4 => Some(SubN::Flat(Deep::Leaf { x: opt(rng, |r| r.below(100) as i8) })),
+                _ => Some(SubN::Flat(Deep::Unit)),
+            },
+        }
     }
     fn fields(&self) -> Vec<(&'static str, String)> {
         vec![("verbose", format!("{:?}", self.verbose)), ("cmd", format!("{:?}", self.cmd))]
@@ -896,7 +1017,8 @@ fn update_subcommands(rng: &mut Rng, st: &mut Stats) {
 
 pub fn case(seed: u64, st: &mut Stats) {
     let mut rng = Rng::new(seed);
-    match rng.below(10) {
+    match rng.below(11) {
+        10 => check::<N>(&mut rng, st),
         9 => update_subcommands(&mut rng, st),
         0 => check::<A>(&mut rng, st),
         1 => check::<B>(&mut rng, st),
